@@ -137,6 +137,7 @@ def cases_for(tier, s):
         variants = [(h, "none") for h in seeds] + [(0, "objs"), (0, "compiled_before"), (0, "twice"), (2, "objs_compiled"), (0, "built_early")]
         if tier == "quick":
             variants = variants[:2] + [variants[2 + i % 2], variants[4 + i % 2], variants[6 + (i % 2) * 0], variants[-1]][: 4]
+        variants = variants + [(1 + i % 2, "hostile")]
         for lang in (("C", "numba") if (tier == "thorough" or i % 4 == 0) else ("C",)):
             opts = {} if lang == "C" else {"language": "numba"}
             if i % 5 == 3:
